@@ -101,6 +101,16 @@ def run(e: Engine, rep: Report):
         'is not told that the message was lost',
         # (the application's own templates are configuration, not input)
         deny=['_check_custom_templates'])
+    rep.rule('B15', 'the bounce quotes the reply it was given: Bounce '
+             'builds no Reply of its own and never re-binds / rewrites its '
+             '`reply` (a 4xx that ended the retries is reported as the 4xx '
+             'it was)')
+    rep.rule('B16', 'BytesFormat puts the substituted values into the '
+             'output as they are: the rendering methods apply no rewriting '
+             'operation (replace / sub / strip / translate ...) - whatever '
+             'is done to the finished output is done to the failed '
+             'recipient, the sender and the quoted reply as well')
+    b15_b16(e, rep)
 
 
 def b5(e: Engine, rep: Report):
@@ -1349,3 +1359,73 @@ def b12(e: Engine, rep: Report, rule: str = 'B12'):
               % (' (line %d)' % none[0].lineno if none else ''),
               loc=f.loc(none[0]) if none else f.loc(),
               reason='every return hands back an object')
+
+
+# --------------------------------------------------------------- B15 / B16
+OUTPUT_REWRITERS = {'replace', 'sub', 'subn', 'translate', 'strip', 'rstrip',
+                    'lstrip', 'lower', 'upper', 'title', 'capitalize',
+                    'expandtabs', 'splitlines', 'removeprefix',
+                    'removesuffix', 'normalize', 'swapcase', 'casefold'}
+
+
+def b15_b16(e: Engine, rep: Report):
+    c = e.p.classes.get(BOUNCE)
+    if c is None:
+        rep.error('anchor vanished: ' + BOUNCE)
+        return
+    n = 0
+    for mname, m in sorted(c.methods.items()):
+        if 'reply' not in m.params:
+            continue
+        n += 1
+        rep.evaluations += 1
+        rep.functions.add(m.qname)
+        rebound = [x for x in walk_own(m.node) if isinstance(x, ast.Name) and
+                   x.id == 'reply' and isinstance(x.ctx, (ast.Store,
+                                                         ast.Del))]
+        wrote = [x for x in walk_own(m.node) if isinstance(x, ast.Attribute)
+                 and isinstance(x.ctx, ast.Store) and
+                 isinstance(x.value, ast.Name) and x.value.id == 'reply']
+        made = [x for x in walk_own(m.node) if isinstance(x, ast.Call) and
+                ast.unparse(x.func).rpartition('.')[2] == 'Reply']
+        bad = rebound or wrote or made
+        rep.check(not bad, 'B15', m.qname,
+                  '%s reports the reply it was given' % mname,
+                  'Bounce.%s does not quote the reply as it is (`%s`): the '
+                  'sender is told another code / text than the one that '
+                  'made the delivery fail' % (mname, ' '.join(ast.unparse(
+                      bad[0]).split())[:50] if bad else ''),
+                  loc=m.loc(bad[0]) if bad else m.loc(),
+                  reason='`reply` is read only')
+    if n < 3:
+        rep.error('anchor vanished: Bounce methods taking `reply` (%d < 3)'
+                  % n)
+    bf = e.p.classes.get('slimta.util.bytesformat.BytesFormat')
+    if bf is None:
+        rep.error('anchor vanished: BytesFormat')
+        return
+    k = 0
+    for mname, m in sorted(bf.methods.items()):
+        if mname in ('__init__', '_parse_template', '__repr__'):
+            continue           # the template is configuration
+        k += 1
+        rep.functions.add(m.qname)
+        for x in walk_own(m.node):
+            if isinstance(x, ast.Call) and isinstance(x.func, ast.Attribute) \
+                    and x.func.attr in OUTPUT_REWRITERS:
+                rep.evaluations += 1
+                rep.bad('B16', m.qname, '`%s`' % ' '.join(
+                    ast.unparse(x).split())[:50],
+                    'BytesFormat.%s passes what it renders through %s(): '
+                    'the substituted values (failed recipient, sender, the '
+                    'quoted reply) are changed along with the template '
+                    'text - the bounce names an address / quotes a reply '
+                    'that differs from the real one' % (mname, x.func.attr),
+                    loc=m.loc(x))
+    rep.evaluations += 1
+    if k < 2:
+        rep.error('anchor vanished: rendering methods of BytesFormat')
+    else:
+        rep.ok('B16', 'slimta.util.bytesformat.BytesFormat',
+               'no rewriting operation in the rendering methods',
+               reason='%d methods scanned' % k, nontrivial=False)
